@@ -51,9 +51,9 @@ def main():
             print(json.dumps(res))
             return 2
         env = dict(os.environ, PYTHONDONTWRITEBYTECODE='1')
-        rc, out = sh(['/venv/bin/python', demo], clean, env)
+        rc, out = sh(['/venv/bin/python', demo], clean, dict(env, PYTHONPATH=clean))
         res['demo_clean_rc'] = rc
-        rc, out = sh(['/venv/bin/python', demo], mut, env)
+        rc, out = sh(['/venv/bin/python', demo], mut, dict(env, PYTHONPATH=mut))
         res['demo_mutant_rc'] = rc
         res['demo_mutant_tail'] = out[-300:]
         rc, out = sh(['/venv/bin/python', '-m', 'pytest', '-q', '-p', 'no:cacheprovider', '--no-cov'], mut, env)
